@@ -1,4 +1,5 @@
 import PysersicModel.Opt.EarlyStop
+import PysersicModel.Gen.EarlyStopProg
 
 namespace Pysersic.Driver
 open Pysersic.EarlyStop
@@ -34,6 +35,26 @@ def earlyStop (args : List String) : String :=
           let recs := allRounds script cfg
           let calls := (0, 0) :: (recs.flatMap fun rc => rc.out.steps.map fun st => (st.round, st.inState))
           let callStr := " ".intercalate (calls.map fun (a, b) => s!"{a}:{b}")
+          let lossStr := " ".intercalate (r.losses.map showLoss)
+          s!"ok best={r.best} last={r.last} calls={r.calls} losses=[{lossStr}] trace=[{callStr}]"
+    | _, _, _, _ => "bad-op es-args"
+  | _ => "bad-op es-arity"
+
+/-- `esgen …`: the same request answered by the program TRANSLATED from the source (`Gen.EarlyStopProg`), same reply format -/
+def earlyStopGen (args : List String) : String :=
+  match args with
+  | nr :: mt :: pa :: ls =>
+    match nr.toNat?, mt.toNat?, pa.toNat?, ls.mapM parseLoss with
+    | some nr, some mt, some pa, some ls =>
+      let arr := ls.toArray
+      let script : Nat → Loss := fun k => arr.getD k .nan
+      let P : Gen.EarlyStopProg.Params := ⟨nr, mt, pa⟩
+      match Gen.EarlyStopProg.run script P with
+      | none => "error NameError"
+      | some r =>
+        if r.calls > arr.size then s!"overrun calls={r.calls}"
+        else
+          let callStr := " ".intercalate ((Gen.EarlyStopProg.calls script P).map fun (a, b) => s!"{a}:{b}")
           let lossStr := " ".intercalate (r.losses.map showLoss)
           s!"ok best={r.best} last={r.last} calls={r.calls} losses=[{lossStr}] trace=[{callStr}]"
     | _, _, _, _ => "bad-op es-args"
